@@ -1018,3 +1018,38 @@ keep("P31", "uniq: brute-force path with a differently named local",
 
 keep("P32", "equal: temporaries",
      [(U, "    return unbool(one) == unbool(two)", "    left = unbool(one)\n    right = unbool(two)\n    return left == right")])
+
+
+# --------------------------------------------------------------------------- C13
+brk("B47", "is_ipv6: raises=()",
+    [(F, '@_checks_drafts(name="ipv6", raises=ipaddress.AddressValueError)', '@_checks_drafts(name="ipv6")')], {"C13": "R13.1|"})
+
+brk("B47b", "is_regex: raises=re.error only (pre-fix shape)",
+    [(F, '''@_checks_drafts(
+    name="regex",
+    raises=(re.error, OverflowError, RecursionError),
+)''', '''@_checks_drafts(name="regex", raises=re.error)''')], {"C13": "R13.1|"})
+
+brk("B47c", "is_date: bare fromisoformat (pre-fix shape)",
+    [(F, '''    if not _RFC3339_FULL_DATE.fullmatch(instance):
+        return False
+    return _is_date(instance)''', '''    return _is_date(instance)''')], {"C13": "R13.3|"})
+
+brk("B47d", "is_date: shape checked with match (prefix) instead of fullmatch",
+    [(F, "    if not _RFC3339_FULL_DATE.fullmatch(instance):", "    if not _RFC3339_FULL_DATE.match(instance):")], {"C13": "R13.3|"})
+
+brk("B47e", "is_date: shape regex uses \\d without ASCII (non-ASCII digits reach fromisoformat)",
+    [(F, '''_RFC3339_FULL_DATE = re.compile(r"[0-9]{4}-[0-9]{2}-[0-9]{2}")''', '''_RFC3339_FULL_DATE = re.compile(r"\\d{4}-\\d{2}-\\d{2}")''')], {"C13": "R13.3|"})
+
+brk("B47f", "is_ipv6: zone ids accepted",
+    [(F, '''    address = ipaddress.IPv6Address(instance)
+    return not getattr(address, "scope_id", "")''', '''    return ipaddress.IPv6Address(instance)''')], {"C13": "R13.4|"})
+
+brk("B47g", "is_ipv4: returns the packed integer (0.0.0.0 is falsy)",
+    [(F, "    return ipaddress.IPv4Address(instance)", "    return int(ipaddress.IPv4Address(instance))")], {"C13": "R13.2|"})
+
+brk("B47h", "is_idn_host_name: UnicodeError not listed",
+    [(F, "        raises=(idna.IDNAError, UnicodeError),", "        raises=idna.IDNAError,")], {"C13": "R13.1|"})
+
+brk("B47i", "is_draft3_time: raises dropped",
+    [(F, '@_checks_drafts(draft3="time", raises=ValueError)', '@_checks_drafts(draft3="time")')], {"C13": "R13.1|"})
